@@ -356,6 +356,8 @@ package sod
 //@ ensures [C02 iou.values] imp(err == nil, forallk(f, string, imp(has(in.Fields, f), in.Fields[f].objectIds[id].Value == norm(proj(o.content, f)))))
 //@ ensures [C02 C20 iou.others] imp(err == nil, forallk(f, string, imp(has(in.Fields, f), forallk(k, uint64, imp(k != id, in.Fields[f].objectIds[k] == old(in.Fields[f].objectIds[k]))))))
 //@ ensures [C03 iou.wf] imp(err == nil, wfIndex(in))
+//@ ensures [C04 iou.version] in.ver == old(in.ver) + ite(err == nil, 1, 0) && in.otype == old(in.otype)
+//@ atexit in.ver := ite(err == nil, old(in.ver) + 1, old(in.ver))
 //@ loop 1 invariant [frame-maps] preserved(MapDom[string,*fieldIndex], MapVal[string,*fieldIndex], fieldIndex.objectIds, fieldIndex.nameSplit, fieldIndex.Constraints)
 //@ loop 1 invariant [wf-all] forallk(f, string, imp(has(in.Fields, f), in.Fields[f] != nil && allocated(in.Fields[f]) && wfField(in.Fields[f]) && imp(len(in.Fields[f].Index) > 0, rank(in.Fields[f].Index[0].Value) == fieldrank(in.otype, f))))
 //@ loop 1 invariant [ids] forallk(f, string, imp(has(in.Fields, f), forallk(k, uint64, has(in.Fields[f].objectIds, k) == has(in.ObjectIds, k))))
@@ -371,7 +373,7 @@ package sod
 //@ loop 2 invariant [visited-value] forallk(f, string, imp(has(in.Fields, f) && visited(f), in.Fields[f].objectIds[id].Value == norm(proj(o.content, f))))
 //@ loop 2 invariant [others] forallk(f, string, imp(has(in.Fields, f), forallk(k, uint64, imp(k != id, in.Fields[f].objectIds[k] == old(in.Fields[f].objectIds[k])))))
 //@ loop 2 invariant [sep] sepFields(in)
-//@ modifies objIndex.i@in, MapDom[string,uint64]@in.uuids, MapVal[string,uint64]@in.uuids, MapCard[string,uint64]@in.uuids, MapDom[uint64,string]@in.ObjectIds, MapVal[uint64,string]@in.ObjectIds, MapCard[uint64,string]@in.ObjectIds, fieldIndex.Index, fieldIndex.pos, MapDom[uint64,*indexedField], MapVal[uint64,*indexedField], MapCard[uint64,*indexedField], Elem[*indexedField]
+//@ modifies objIndex.i@in, objIndex.ver@in, MapDom[string,uint64]@in.uuids, MapVal[string,uint64]@in.uuids, MapCard[string,uint64]@in.uuids, MapDom[uint64,string]@in.ObjectIds, MapVal[uint64,string]@in.ObjectIds, MapCard[uint64,string]@in.ObjectIds, fieldIndex.Index, fieldIndex.pos, MapDom[uint64,*indexedField], MapVal[uint64,*indexedField], MapCard[uint64,*indexedField], Elem[*indexedField]
 //@ allocates indexedField.Value, indexedField.ObjectId, Elem[interface{}]
 
 //@ func (*objIndex).deleteByUUID
@@ -385,13 +387,15 @@ package sod
 //@ ensures [C02 dbu.fields-same] in.Fields == old(in.Fields) && in.uuids == old(in.uuids) && in.ObjectIds == old(in.ObjectIds) && forallk(f, string, has(in.Fields, f) == old(has(in.Fields, f)) && in.Fields[f] == old(in.Fields[f]))
 //@ ensures [C02 C20 dbu.others] forallk(f, string, imp(has(in.Fields, f), forallk(k, uint64, imp(!(known && k == id), in.Fields[f].objectIds[k] == old(in.Fields[f].objectIds[k])))))
 //@ ensures [C03 dbu.wf] wfIndex(in)
+//@ ensures [C04 dbu.version] in.ver == old(in.ver) + ite(known, 1, 0) && in.otype == old(in.otype)
+//@ atexit in.ver := ite(known, old(in.ver) + 1, old(in.ver))
 //@ loop 1 invariant [frame-maps] preserved(MapDom[string,*fieldIndex], MapVal[string,*fieldIndex], fieldIndex.objectIds, fieldIndex.nameSplit, fieldIndex.Constraints)
 //@ loop 1 invariant [wf-all] forallk(f, string, imp(has(in.Fields, f), in.Fields[f] != nil && allocated(in.Fields[f]) && wfField(in.Fields[f]) && imp(len(in.Fields[f].Index) > 0, rank(in.Fields[f].Index[0].Value) == fieldrank(in.otype, f))))
 //@ loop 1 invariant [ids-visited] forallk(f, string, imp(has(in.Fields, f) && visited(f), forallk(k, uint64, has(in.Fields[f].objectIds, k) == (has(in.ObjectIds, k) && k != id))))
 //@ loop 1 invariant [ids-unvisited] forallk(f, string, imp(has(in.Fields, f) && !visited(f), forallk(k, uint64, has(in.Fields[f].objectIds, k) == has(in.ObjectIds, k))))
 //@ loop 1 invariant [others] forallk(f, string, imp(has(in.Fields, f), forallk(k, uint64, imp(k != id, in.Fields[f].objectIds[k] == old(in.Fields[f].objectIds[k])))))
 //@ loop 1 invariant [sep] sepFields(in)
-//@ modifies MapDom[string,uint64]@in.uuids, MapVal[string,uint64]@in.uuids, MapCard[string,uint64]@in.uuids, MapDom[uint64,string]@in.ObjectIds, MapVal[uint64,string]@in.ObjectIds, MapCard[uint64,string]@in.ObjectIds, fieldIndex.Index, fieldIndex.pos, MapDom[uint64,*indexedField], MapVal[uint64,*indexedField], MapCard[uint64,*indexedField], Elem[*indexedField]
+//@ modifies objIndex.ver@in, MapDom[string,uint64]@in.uuids, MapVal[string,uint64]@in.uuids, MapCard[string,uint64]@in.uuids, MapDom[uint64,string]@in.ObjectIds, MapVal[uint64,string]@in.ObjectIds, MapCard[uint64,string]@in.ObjectIds, fieldIndex.Index, fieldIndex.pos, MapDom[uint64,*indexedField], MapVal[uint64,*indexedField], MapCard[uint64,*indexedField], Elem[*indexedField]
 
 //@ func (*fieldIndex).SearchByRegex
 //@ serves C02 C13 C19 C20
@@ -662,6 +666,7 @@ package sod
 //@ ensures [C11 schema.coherent] imp(!old(has(db.schemas, stypeOf(dyntype(of)))) && has(db.schemas, stypeOf(dyntype(of))), db.schemas[stypeOf(dyntype(of))].coherent == (err == nil))
 //@ ensures [C10 schema.flusher] imp(err == nil && asyncOn(s), s.AsyncWrites.routineStarted)
 //@ ensures [C01 schema.others] db.schemas == old(db.schemas) && forallk(t, string, imp(t != stypeOf(dyntype(of)), has(db.schemas, t) == old(has(db.schemas, t)) && db.schemas[t] == old(db.schemas[t])))
+//@ ensures [C01 schema.keeps] imp(old(has(db.schemas, stypeOf(dyntype(of)))), has(db.schemas, stypeOf(dyntype(of))) && db.schemas[stypeOf(dyntype(of))] == old(db.schemas[stypeOf(dyntype(of))]))
 //@ ensures [C01 schema.wf] wfDB(db)
 //@ ensures [C17 schema.readonly] FSk == old(FSk) && FSc == old(FSc)
 //@ modifies MapDom[string,*Schema]@db.schemas, MapVal[string,*Schema]@db.schemas, MapCard[string,*Schema]@db.schemas, Async.routineStarted
@@ -677,14 +682,14 @@ package sod
 //@ ensures [C01 exist.schema] imp(err == nil, s != nil && has(db.schemas, stypeOf(dyntype(o))) && db.schemas[stypeOf(dyntype(o))] == s)
 //@ ensures [C01 exist.wf] wfDB(db)
 //@ ensures [C17 exist.readonly] FSk == old(FSk) && FSc == old(FSc)
-//@ ensures [C01 exist.others] db.schemas == old(db.schemas) && forallk(t, string, imp(t != stypeOf(dyntype(o)), has(db.schemas, t) == old(has(db.schemas, t)) && db.schemas[t] == old(db.schemas[t]))) && imp(old(has(db.schemas, stypeOf(dyntype(o)))), s == old(db.schemas[stypeOf(dyntype(o))]))
+//@ ensures [C01 exist.others] db.schemas == old(db.schemas) && forallk(t, string, imp(t != stypeOf(dyntype(o)), has(db.schemas, t) == old(has(db.schemas, t)) && db.schemas[t] == old(db.schemas[t]))) && imp(old(has(db.schemas, stypeOf(dyntype(o)))), has(db.schemas, stypeOf(dyntype(o))) && db.schemas[stypeOf(dyntype(o))] == old(db.schemas[stypeOf(dyntype(o))]))
 //@ modifies MapDom[string,*Schema]@db.schemas, MapVal[string,*Schema]@db.schemas, MapCard[string,*Schema]@db.schemas, Async.routineStarted
 //@ allocates Schema.db, Schema.object, Schema.transformers, Schema.Fields, Schema.Extension, Schema.Compress, Schema.Cache, Schema.AsyncWrites, Schema.ObjectIndex, Schema.coherent, Async.routineStarted, Async.Enable, Async.Threshold, Async.Timeout, objIndex.i, objIndex.uuids, objIndex.Fields, objIndex.ObjectIds, objIndex.otype, objIndex.ver, MapDom[string,uint64], MapVal[string,uint64], MapCard[string,uint64], MapDom[uint64,string], MapVal[uint64,string], MapCard[uint64,string], MapDom[string,*fieldIndex], MapVal[string,*fieldIndex], MapCard[string,*fieldIndex], fieldIndex.Name, fieldIndex.Cast, fieldIndex.Constraints, fieldIndex.Index, fieldIndex.objectIds, fieldIndex.nameSplit, fieldIndex.pos, MapDom[uint64,*indexedField], MapVal[uint64,*indexedField], MapCard[uint64,*indexedField], Elem[*indexedField], indexedField.Value, indexedField.ObjectId, Elem[string]
 
 //@ func (*DB).get
 //@ serves C01 C08 C09 C10 C12 C14
 //@ requires [wf] wfDB(db) && in != nil
-//@ requires [C14 caller-owned] forallk(t, string, forallk(w, string, db.cache.m[t].m[w] != in && db.asyncw.m[t].m[w] != in))
+//@ requires [C14 caller-owned] callerOwned(db, in)
 //@ requires [C08 locked] H >= 1
 //@ requires [C09 lock-free] SL == 0 && HS == 0 && HM == 0
 //@ let u string := in.uuid
@@ -699,3 +704,140 @@ package sod
 //@ ensures [C01 get.others] db.schemas == old(db.schemas) && forallk(t, string, imp(t != T, has(db.schemas, t) == old(has(db.schemas, t)) && db.schemas[t] == old(db.schemas[t]))) && imp(old(has(db.schemas, T)), db.schemas[T] == old(db.schemas[T]))
 //@ modifies MapDom[string,*Schema]@db.schemas, MapVal[string,*Schema]@db.schemas, MapCard[string,*Schema]@db.schemas, Async.routineStarted, Object.content@in, MapDom[string,*objectMap]@db.cache.m, MapVal[string,*objectMap]@db.cache.m, MapCard[string,*objectMap]@db.cache.m, MapDom[string,Object], MapVal[string,Object], MapCard[string,Object]
 //@ allocates Object.content, Object.uuid, objectMap.m, objectMap.RWMutex, Schema.db, Schema.object, Schema.transformers, Schema.Fields, Schema.Extension, Schema.Compress, Schema.Cache, Schema.AsyncWrites, Schema.ObjectIndex, Schema.coherent, Async.routineStarted, Async.Enable, Async.Threshold, Async.Timeout, objIndex.i, objIndex.uuids, objIndex.Fields, objIndex.ObjectIds, objIndex.otype, objIndex.ver, MapDom[string,uint64], MapVal[string,uint64], MapCard[string,uint64], MapDom[uint64,string], MapVal[uint64,string], MapCard[uint64,string], MapDom[string,*fieldIndex], MapVal[string,*fieldIndex], MapCard[string,*fieldIndex], fieldIndex.Name, fieldIndex.Cast, fieldIndex.Constraints, fieldIndex.Index, fieldIndex.objectIds, fieldIndex.nameSplit, fieldIndex.pos, MapDom[uint64,*indexedField], MapVal[uint64,*indexedField], MapCard[uint64,*indexedField], Elem[*indexedField], indexedField.Value, indexedField.ObjectId, Elem[string]
+
+// ---- Schema wrappers of the object index (same contracts, stated on s.ObjectIndex) ----
+
+//@ func (*Schema).index
+//@ serves C01 C02 C03 C06 C07 C19 C20
+//@ requires [schema] s != nil && s.ObjectIndex != nil
+//@ requires [wf] wfIndex(s.ObjectIndex) && o != nil && dyntype(o) == s.ObjectIndex.otype
+//@ requires [id-room] s.ObjectIndex.i < 18446744073709551615
+//@ let u string := o.uuid
+//@ let known bool := has(s.ObjectIndex.uuids, o.uuid)
+//@ let id uint64 := ite(has(s.ObjectIndex.uuids, o.uuid), s.ObjectIndex.uuids[o.uuid], s.ObjectIndex.i)
+//@ ensures [C03 C06 iou.accept-iff] (result == nil) == old(forallk(f, string, imp(has(s.ObjectIndex.Fields, f), satOK(s.ObjectIndex, o, f))))
+//@ ensures [C06 iou.error-no-change] imp(result != nil, preserved(objIndex.i, MapDom[string,uint64], MapVal[string,uint64], MapDom[uint64,string], MapVal[uint64,string], fieldIndex.Index, fieldIndex.pos, MapDom[uint64,*indexedField], MapVal[uint64,*indexedField], Elem[*indexedField], indexedField.Value, indexedField.ObjectId))
+//@ ensures [C03 C20 iou.counter] imp(result == nil && !known, s.ObjectIndex.i == old(s.ObjectIndex.i) + 1) && imp(result != nil || known, s.ObjectIndex.i == old(s.ObjectIndex.i))
+//@ ensures [C01 iou.uuids] imp(result == nil, forallk(w, string, has(s.ObjectIndex.uuids, w) == (old(has(s.ObjectIndex.uuids, w)) || w == u)) && s.ObjectIndex.uuids[u] == id && forallk(w, string, imp(w != u, s.ObjectIndex.uuids[w] == old(s.ObjectIndex.uuids[w]))))
+//@ ensures [C01 iou.objids] imp(result == nil, forallk(k, uint64, has(s.ObjectIndex.ObjectIds, k) == (old(has(s.ObjectIndex.ObjectIds, k)) || k == id)) && s.ObjectIndex.ObjectIds[id] == u && forallk(k, uint64, imp(k != id, s.ObjectIndex.ObjectIds[k] == old(s.ObjectIndex.ObjectIds[k]))))
+//@ ensures [C02 iou.fields-same] s.ObjectIndex.Fields == old(s.ObjectIndex.Fields) && s.ObjectIndex.uuids == old(s.ObjectIndex.uuids) && s.ObjectIndex.ObjectIds == old(s.ObjectIndex.ObjectIds) && forallk(f, string, has(s.ObjectIndex.Fields, f) == old(has(s.ObjectIndex.Fields, f)) && s.ObjectIndex.Fields[f] == old(s.ObjectIndex.Fields[f]))
+//@ ensures [C02 iou.values] imp(result == nil, forallk(f, string, imp(has(s.ObjectIndex.Fields, f), s.ObjectIndex.Fields[f].objectIds[id].Value == norm(proj(o.content, f)))))
+//@ ensures [C02 C20 iou.others] imp(result == nil, forallk(f, string, imp(has(s.ObjectIndex.Fields, f), forallk(k, uint64, imp(k != id, s.ObjectIndex.Fields[f].objectIds[k] == old(s.ObjectIndex.Fields[f].objectIds[k]))))))
+//@ ensures [C03 iou.wf] imp(result == nil, wfIndex(s.ObjectIndex))
+//@ ensures [C04 iou.version] s.ObjectIndex.ver == old(s.ObjectIndex.ver) + ite(result == nil, 1, 0) && s.ObjectIndex.otype == old(s.ObjectIndex.otype)
+//@ modifies objIndex.i@s.ObjectIndex, objIndex.ver@s.ObjectIndex, MapDom[string,uint64]@s.ObjectIndex.uuids, MapVal[string,uint64]@s.ObjectIndex.uuids, MapCard[string,uint64]@s.ObjectIndex.uuids, MapDom[uint64,string]@s.ObjectIndex.ObjectIds, MapVal[uint64,string]@s.ObjectIndex.ObjectIds, MapCard[uint64,string]@s.ObjectIndex.ObjectIds, fieldIndex.Index, fieldIndex.pos, MapDom[uint64,*indexedField], MapVal[uint64,*indexedField], MapCard[uint64,*indexedField], Elem[*indexedField]
+//@ allocates indexedField.Value, indexedField.ObjectId, Elem[interface{}]
+
+//@ func (*Schema).unindexByUUID
+//@ serves C01 C02 C03 C11 C19 C20
+//@ requires [schema] s != nil && s.ObjectIndex != nil
+//@ requires [wf] wfIndex(s.ObjectIndex)
+//@ let known bool := has(s.ObjectIndex.uuids, uuid)
+//@ let id uint64 := s.ObjectIndex.uuids[uuid]
+//@ ensures [C03 C20 dbu.counter] s.ObjectIndex.i == old(s.ObjectIndex.i)
+//@ ensures [C01 dbu.uuids] forallk(w, string, has(s.ObjectIndex.uuids, w) == (old(has(s.ObjectIndex.uuids, w)) && w != uuid)) && forallk(w, string, imp(w != uuid, s.ObjectIndex.uuids[w] == old(s.ObjectIndex.uuids[w])))
+//@ ensures [C01 dbu.objids] forallk(k, uint64, has(s.ObjectIndex.ObjectIds, k) == (old(has(s.ObjectIndex.ObjectIds, k)) && !(known && k == id))) && forallk(k, uint64, imp(!(known && k == id), s.ObjectIndex.ObjectIds[k] == old(s.ObjectIndex.ObjectIds[k])))
+//@ ensures [C02 dbu.fields-same] s.ObjectIndex.Fields == old(s.ObjectIndex.Fields) && s.ObjectIndex.uuids == old(s.ObjectIndex.uuids) && s.ObjectIndex.ObjectIds == old(s.ObjectIndex.ObjectIds) && forallk(f, string, has(s.ObjectIndex.Fields, f) == old(has(s.ObjectIndex.Fields, f)) && s.ObjectIndex.Fields[f] == old(s.ObjectIndex.Fields[f]))
+//@ ensures [C02 C20 dbu.others] forallk(f, string, imp(has(s.ObjectIndex.Fields, f), forallk(k, uint64, imp(!(known && k == id), s.ObjectIndex.Fields[f].objectIds[k] == old(s.ObjectIndex.Fields[f].objectIds[k])))))
+//@ ensures [C03 dbu.wf] wfIndex(s.ObjectIndex)
+//@ ensures [C04 dbu.version] s.ObjectIndex.ver == old(s.ObjectIndex.ver) + ite(known, 1, 0) && s.ObjectIndex.otype == old(s.ObjectIndex.otype)
+//@ modifies objIndex.ver@s.ObjectIndex, MapDom[string,uint64]@s.ObjectIndex.uuids, MapVal[string,uint64]@s.ObjectIndex.uuids, MapCard[string,uint64]@s.ObjectIndex.uuids, MapDom[uint64,string]@s.ObjectIndex.ObjectIds, MapVal[uint64,string]@s.ObjectIndex.ObjectIds, MapCard[uint64,string]@s.ObjectIndex.ObjectIds, fieldIndex.Index, fieldIndex.pos, MapDom[uint64,*indexedField], MapVal[uint64,*indexedField], MapCard[uint64,*indexedField], Elem[*indexedField]
+
+//@ func (*Schema).unindex
+//@ serves C01 C02 C03 C11 C19 C20
+//@ requires [schema] s != nil && s.ObjectIndex != nil && o != nil
+//@ requires [wf] wfIndex(s.ObjectIndex)
+//@ let known bool := has(s.ObjectIndex.uuids, o.uuid)
+//@ let id uint64 := s.ObjectIndex.uuids[o.uuid]
+//@ ensures [C03 C20 dbu.counter] s.ObjectIndex.i == old(s.ObjectIndex.i)
+//@ ensures [C01 dbu.uuids] forallk(w, string, has(s.ObjectIndex.uuids, w) == (old(has(s.ObjectIndex.uuids, w)) && w != o.uuid)) && forallk(w, string, imp(w != o.uuid, s.ObjectIndex.uuids[w] == old(s.ObjectIndex.uuids[w])))
+//@ ensures [C01 dbu.objids] forallk(k, uint64, has(s.ObjectIndex.ObjectIds, k) == (old(has(s.ObjectIndex.ObjectIds, k)) && !(known && k == id))) && forallk(k, uint64, imp(!(known && k == id), s.ObjectIndex.ObjectIds[k] == old(s.ObjectIndex.ObjectIds[k])))
+//@ ensures [C02 dbu.fields-same] s.ObjectIndex.Fields == old(s.ObjectIndex.Fields) && s.ObjectIndex.uuids == old(s.ObjectIndex.uuids) && s.ObjectIndex.ObjectIds == old(s.ObjectIndex.ObjectIds) && forallk(f, string, has(s.ObjectIndex.Fields, f) == old(has(s.ObjectIndex.Fields, f)) && s.ObjectIndex.Fields[f] == old(s.ObjectIndex.Fields[f]))
+//@ ensures [C02 C20 dbu.others] forallk(f, string, imp(has(s.ObjectIndex.Fields, f), forallk(k, uint64, imp(!(known && k == id), s.ObjectIndex.Fields[f].objectIds[k] == old(s.ObjectIndex.Fields[f].objectIds[k])))))
+//@ ensures [C03 dbu.wf] wfIndex(s.ObjectIndex)
+//@ ensures [C04 dbu.version] s.ObjectIndex.ver == old(s.ObjectIndex.ver) + ite(known, 1, 0) && s.ObjectIndex.otype == old(s.ObjectIndex.otype)
+//@ modifies objIndex.ver@s.ObjectIndex, MapDom[string,uint64]@s.ObjectIndex.uuids, MapVal[string,uint64]@s.ObjectIndex.uuids, MapCard[string,uint64]@s.ObjectIndex.uuids, MapDom[uint64,string]@s.ObjectIndex.ObjectIds, MapVal[uint64,string]@s.ObjectIndex.ObjectIds, MapCard[uint64,string]@s.ObjectIndex.ObjectIds, fieldIndex.Index, fieldIndex.pos, MapDom[uint64,*indexedField], MapVal[uint64,*indexedField], MapCard[uint64,*indexedField], Elem[*indexedField]
+
+//@ func uuidOrPanic
+//@ serves C01
+//@ trusted "google/uuid NewRandom: a uuid-shaped, non-empty string (may panic when the random source fails)"
+//@ ensures result != ""
+//@ pure
+
+//@ func (*DB).writeData
+//@ serves C01 C04 C05 C06 C10 C12 C18
+//@ requires [wf] db != nil && s != nil && o != nil && s.ObjectIndex != nil && dyntype(o) == s.ObjectIndex.otype
+//@ ensures [C18 wd.ok] imp(err == nil, FSk == upd(old(FSk), opath(db, s, o.uuid), 1) && FSc == upd(old(FSc), opath(db, s, o.uuid), datac(data)))
+//@ ensures [C06 wd.fail] imp(err != nil, FSk == old(FSk) && FSc == old(FSc) && isStorage(err))
+//@ modifies Ghost.FSk, Ghost.FSc
+
+//@ func (*DB).initialize
+//@ serves C01 C06 C07
+//@ requires [wf] wfDB(db) && o != nil
+//@ requires [C14 caller-owned] callerOwned(db, o)
+//@ requires [C08 locked] H >= 1
+//@ requires [C09 lock-free] SL == 0 && HS == 0 && HM == 0
+//@ let u0 string := o.uuid
+//@ let T string := stypeOf(dyntype(o))
+//@ ensures [C01 init.keeps] imp(u0 != "", err == nil && o.uuid == u0)
+//@ ensures [C01 init.fresh] imp(u0 == "" && err == nil, o.uuid != "" && has(db.schemas, T) && imp(db.schemas[T].coherent, !has(db.schemas[T].ObjectIndex.uuids, o.uuid)))
+//@ ensures [C01 init.wf] wfDB(db)
+//@ ensures [C06 init.readonly] FSk == old(FSk) && FSc == old(FSc) && o.content == old(o.content)
+//@ ensures [C01 init.others] db.schemas == old(db.schemas) && forallk(t, string, imp(t != T, has(db.schemas, t) == old(has(db.schemas, t)) && db.schemas[t] == old(db.schemas[t]))) && imp(old(has(db.schemas, T)), has(db.schemas, T) && db.schemas[T] == old(db.schemas[T]))
+//@ loop 1 invariant [frame] preservedAt(MapDom[string,*Schema], db.schemas) && preservedAt(MapVal[string,*Schema], db.schemas) && preservedAt(MapCard[string,*Schema], db.schemas) && preservedAt(Object.uuid, o)
+//@ loop 1 invariant [owned] callerOwned(db, o)
+//@ loop 1 invariant [wf] wfDB(db)
+//@ loop 1 invariant [ro] FSk == old(FSk) && FSc == old(FSc) && o.content == old(o.content) && u0 == ""
+//@ loop 1 invariant [others] db.schemas == old(db.schemas) && forallk(t, string, imp(t != T, has(db.schemas, t) == old(has(db.schemas, t)) && db.schemas[t] == old(db.schemas[t]))) && imp(old(has(db.schemas, T)), has(db.schemas, T) && db.schemas[T] == old(db.schemas[T]))
+//@ loop 1 invariant [last] imp(!ok, err == nil && o.uuid != "" && has(db.schemas, T) && imp(db.schemas[T].coherent, !has(db.schemas[T].ObjectIndex.uuids, o.uuid)))
+//@ modifies Object.uuid@o, MapDom[string,*Schema]@db.schemas, MapVal[string,*Schema]@db.schemas, MapCard[string,*Schema]@db.schemas, Async.routineStarted
+//@ allocates Schema.db, Schema.object, Schema.transformers, Schema.Fields, Schema.Extension, Schema.Compress, Schema.Cache, Schema.AsyncWrites, Schema.ObjectIndex, Schema.coherent, Async.routineStarted, Async.Enable, Async.Threshold, Async.Timeout, objIndex.i, objIndex.uuids, objIndex.Fields, objIndex.ObjectIds, objIndex.otype, objIndex.ver, MapDom[string,uint64], MapVal[string,uint64], MapCard[string,uint64], MapDom[uint64,string], MapVal[uint64,string], MapCard[uint64,string], MapDom[string,*fieldIndex], MapVal[string,*fieldIndex], MapCard[string,*fieldIndex], fieldIndex.Name, fieldIndex.Cast, fieldIndex.Constraints, fieldIndex.Index, fieldIndex.objectIds, fieldIndex.nameSplit, fieldIndex.pos, MapDom[uint64,*indexedField], MapVal[uint64,*indexedField], MapCard[uint64,*indexedField], Elem[*indexedField], indexedField.Value, indexedField.ObjectId, Elem[string]
+
+//@ func (*DB).saveSchema
+//@ serves C01 C04 C05 C10 C17 C18
+//@ requires [wf] db != nil && o != nil && s != nil && s.ObjectIndex != nil && dyntype(o) == s.ObjectIndex.otype
+//@ ensures [C04 save.ok] imp(err == nil && (override || old(FSk[spath(db, s)] != 1 && FSk[spath(db, s)] != 2)), FSk == upd(old(FSk), spath(db, s), 1) && FSc == upd(old(FSc), spath(db, s), s.ObjectIndex.ver))
+//@ ensures [C04 save.kept] imp(err == nil && !override && old(FSk[spath(db, s)] == 1 || FSk[spath(db, s)] == 2), FSk == old(FSk) && FSc == old(FSc))
+//@ ensures [C05 save.fail] imp(err != nil, FSk == old(FSk) && FSc == old(FSc) && isStorage(err))
+//@ modifies Ghost.FSk, Ghost.FSc
+//@ allocates Elem[uint8]
+
+//@ func (*DB).commit
+//@ serves C01 C04 C05 C08 C09 C10
+//@ requires [wf] wfDB(db) && o != nil
+//@ requires [C08 locked] H == 2
+//@ requires [C09 lock-free] SL == 0 && HS == 0 && HM == 0
+//@ let T string := stypeOf(dyntype(o))
+//@ assume [single-collection] forallk(t, string, imp(has(db.schemas, t), t == T))
+//@ ensures [C04 commit.ok] imp(err == nil, has(db.schemas, T) && committed(db, db.schemas[T]))
+//@ ensures [C05 commit.frame] imp(has(db.schemas, T), forallk(p, string, imp(p != spath(db, db.schemas[T]), FSk[p] == old(FSk[p]) && FSc[p] == old(FSc[p])))) && imp(!has(db.schemas, T), FSk == old(FSk) && FSc == old(FSc))
+//@ ensures [C05 commit.fail] imp(err != nil, FSk == old(FSk) && FSc == old(FSc) && imp(old(has(db.schemas, T)), isStorage(err)))
+//@ ensures [C01 commit.wf] wfDB(db)
+//@ ensures [C01 commit.others] db.schemas == old(db.schemas) && forallk(t, string, imp(t != T, has(db.schemas, t) == old(has(db.schemas, t)) && db.schemas[t] == old(db.schemas[t]))) && imp(old(has(db.schemas, T)), has(db.schemas, T) && db.schemas[T] == old(db.schemas[T]))
+//@ modifies Ghost.FSk, Ghost.FSc, MapDom[string,*Schema]@db.schemas, MapVal[string,*Schema]@db.schemas, MapCard[string,*Schema]@db.schemas, Async.routineStarted
+//@ allocates Elem[uint8], Schema.db, Schema.object, Schema.transformers, Schema.Fields, Schema.Extension, Schema.Compress, Schema.Cache, Schema.AsyncWrites, Schema.ObjectIndex, Schema.coherent, Async.routineStarted, Async.Enable, Async.Threshold, Async.Timeout, objIndex.i, objIndex.uuids, objIndex.Fields, objIndex.ObjectIds, objIndex.otype, objIndex.ver, MapDom[string,uint64], MapVal[string,uint64], MapCard[string,uint64], MapDom[uint64,string], MapVal[uint64,string], MapCard[uint64,string], MapDom[string,*fieldIndex], MapVal[string,*fieldIndex], MapCard[string,*fieldIndex], fieldIndex.Name, fieldIndex.Cast, fieldIndex.Constraints, fieldIndex.Index, fieldIndex.objectIds, fieldIndex.nameSplit, fieldIndex.pos, MapDom[uint64,*indexedField], MapVal[uint64,*indexedField], MapCard[uint64,*indexedField], Elem[*indexedField], indexedField.Value, indexedField.ObjectId, Elem[string]
+
+//@ func (*DB).insertOrUpdate
+//@ serves C01 C04 C05 C06 C07 C08 C09 C10 C12 C14
+//@ requires [wf] wfDB(db) && s != nil && o != nil
+//@ requires [schema] has(db.schemas, stypeOf(dyntype(o))) && db.schemas[stypeOf(dyntype(o))] == s && s.coherent && s.ObjectIndex.otype == dyntype(o)
+//@ requires [C14 caller-owned] callerOwned(db, o)
+//@ requires [C08 locked] H == 2
+//@ requires [C09 lock-free] SL == 0 && HS == 0 && HM == 0
+//@ assume [single-collection] forallk(t, string, imp(has(db.schemas, t), t == stypeOf(dyntype(o))))
+//@ assume [id-room] s.ObjectIndex.i < 18446744073709551615
+//@ let u0 string := o.uuid
+//@ let idx *objIndex := s.ObjectIndex
+//@ ghost u string := o.uuid
+//@ ensures [C01 iou.keeps-uuid] imp(err == nil, u != "" && imp(u0 != "", u == u0) && imp(u0 == "", !old(has(s.ObjectIndex.uuids, u))))
+//@ ensures [C01 iou.stored] imp(err == nil, has(idx.uuids, o.uuid) && value(db, s, o.uuid) == o.content)
+//@ ensures [C01 iou.others] imp(err == nil, forallk(w, string, imp(w != o.uuid, has(idx.uuids, w) == old(has(idx.uuids, w)) && value(db, s, w) == old(value(db, s, w)))))
+//@ ensures [C10 iou.async-visible] imp(err == nil && asyncOn(s), pend(db, s, o.uuid) && cached(db, s, o.uuid))
+//@ ensures [C04 iou.committed] imp(err == nil && commit && !asyncOn(s), committed(db, s))
+//@ ensures [C06 iou.reject-no-trace] imp(err != nil && !isStorage(err), FSk == old(FSk) && FSc == old(FSc) && idx.ver == old(idx.ver) && forallk(w, string, has(idx.uuids, w) == old(has(idx.uuids, w)) && cached(db, s, w) == old(cached(db, s, w)) && pend(db, s, w) == old(pend(db, s, w)) && imp(cached(db, s, w), db.cache.m[ckey(s)].m[w].content == old(db.cache.m[ckey(s)].m[w].content))))
+//@ ensures [C06 iou.reject-index] imp(err != nil && !isStorage(err), preserved(objIndex.i, MapDom[string,uint64], MapVal[string,uint64], MapDom[uint64,string], MapVal[uint64,string], fieldIndex.Index, fieldIndex.pos, MapDom[uint64,*indexedField], MapVal[uint64,*indexedField], Elem[*indexedField], indexedField.Value, indexedField.ObjectId))
+//@ ensures [C05 C06 iou.storage-detectable] imp(isStorage(err), (FSk == old(FSk) && FSc == old(FSc) && idx.ver == old(idx.ver)) || !collK1(db, s) || !collK2(db, s))
+//@ ensures [C01 iou.wf] imp(!isStorage(err), wfDB(db))
+//@ ensures [C01 iou.table] db.schemas == old(db.schemas) && has(db.schemas, stypeOf(dyntype(o))) && db.schemas[stypeOf(dyntype(o))] == s && s.ObjectIndex == idx && s.coherent
+//@ modifies Object.uuid@o, Ghost.FSk, Ghost.FSc, Async.routineStarted, MapDom[string,*Schema]@db.schemas, MapVal[string,*Schema]@db.schemas, MapCard[string,*Schema]@db.schemas, MapDom[string,*objectMap], MapVal[string,*objectMap], MapCard[string,*objectMap], MapDom[string,Object], MapVal[string,Object], MapCard[string,Object], objIndex.i@s.ObjectIndex, objIndex.ver@s.ObjectIndex, MapDom[string,uint64]@s.ObjectIndex.uuids, MapVal[string,uint64]@s.ObjectIndex.uuids, MapCard[string,uint64]@s.ObjectIndex.uuids, MapDom[uint64,string]@s.ObjectIndex.ObjectIds, MapVal[uint64,string]@s.ObjectIndex.ObjectIds, MapCard[uint64,string]@s.ObjectIndex.ObjectIds, fieldIndex.Index, fieldIndex.pos, MapDom[uint64,*indexedField], MapVal[uint64,*indexedField], MapCard[uint64,*indexedField], Elem[*indexedField]
+//@ allocates Elem[uint8], Elem[interface{}], Object.content, Object.uuid, objectMap.m, objectMap.RWMutex, indexedField.Value, indexedField.ObjectId, Schema.db, Schema.object, Schema.transformers, Schema.Fields, Schema.Extension, Schema.Compress, Schema.Cache, Schema.AsyncWrites, Schema.ObjectIndex, Schema.coherent, Async.routineStarted, Async.Enable, Async.Threshold, Async.Timeout, objIndex.i, objIndex.uuids, objIndex.Fields, objIndex.ObjectIds, objIndex.otype, objIndex.ver, MapDom[string,uint64], MapVal[string,uint64], MapCard[string,uint64], MapDom[uint64,string], MapVal[uint64,string], MapCard[uint64,string], MapDom[string,*fieldIndex], MapVal[string,*fieldIndex], MapCard[string,*fieldIndex], fieldIndex.Name, fieldIndex.Cast, fieldIndex.Constraints, fieldIndex.Index, fieldIndex.objectIds, fieldIndex.nameSplit, fieldIndex.pos, MapDom[uint64,*indexedField], MapVal[uint64,*indexedField], MapCard[uint64,*indexedField], Elem[*indexedField], Elem[string]
